@@ -40,6 +40,7 @@ __CPROVER_assigns(g_ctl_depth, g_ctl_top_stmt, g_ctl_top_data, g_ctl_pops, g_ctl
 __CPROVER_ensures(__exc == 0)
 __CPROVER_ensures(SET_EQ(g_ctl_depth, __CPROVER_old(g_ctl_depth) - 1) && SET_EQ(g_ctl_pops, 1) && PTR_EQ(g_ctl_popped_stmt, __CPROVER_old(g_ctl_top_stmt)) && PTR_EQ(g_ctl_popped_data, __CPROVER_old(g_ctl_top_data)))
 ;
+#ifndef OWN_SYMBOL_MODEL   /* a contract that deals with two symbols (FORALL: iterator and table) brings its own */
 /* Symbol& Context::getSymbol(unsigned id) */
 struct Symbol *_ZN4bloc7Context9getSymbolEj(struct Context *this, unsigned id)
 __CPROVER_requires(__exc == 0 && id == g_symid)
@@ -49,6 +50,7 @@ __CPROVER_ensures(PTR_EQ(__CPROVER_return_value, &g_the_symbol))
 ;
 /* unsigned VariableExpression::symbolId() const */
 unsigned VCALL_VariableExpression_symbolId(struct VariableExpression *e) { (void)e; return g_symid; }
+#endif
 
 /* Value& Context::storeVariable(unsigned id, Value&& e): binds e to the variable (copy if e is owned storage,
  * move otherwise); refuses a locked symbol or a type change of a type-safe one with a RuntimeError */
